@@ -25,6 +25,7 @@ def mem (tbl : ClassTable) : Obj → Ty → Bool
     | .cls d => sub tbl d c
     | _ => false
   | o, .annotated t => mem tbl o t
+  | _, .tvar _ => false
 /-- Element constraints of a generic target on a builtin container. -/
 def memArgs (tbl : ClassTable) : Obj → List Ty → Bool
   | .tuple xs, [t] => memAll tbl xs t
